@@ -20,11 +20,12 @@ pub struct World<P: Pad> {
     pub wroots: BTreeMap<u32, Vec<weak::Weak<Node<P>>>>,
     pub moved: BTreeMap<u32, Node<P>>,
     #[cfg(feature = "clean")]
-    pub cleanables: BTreeMap<u32, cleaners::Cleanable>,
+    pub cleanables: BTreeMap<u32, Box<cleaners::Cleanable>>,
     pub ns: u32,
     pub np: u32,
     pub nw: u32,
     pub next_id: u32,
+    pub next_action: u32,
     /// ids of objects ever created (for the random driver)
     pub created: u32,
 }
@@ -42,6 +43,7 @@ impl<P: Pad> World<P> {
             np,
             nw,
             next_id: 1,
+            next_action: 0,
             created: 0,
         }
     }
@@ -60,6 +62,11 @@ thread_local! {
     pub static PENDING_NEW: Cell<u32> = const { Cell::new(0) };
     /// the Weak provided to the running new_cyclic closure
     pub static PROVIDED: Cell<*const ()> = const { Cell::new(std::ptr::null()) };
+    /// (owner, action, target, address of the target node) of every Cc captured by a cleaning action:
+    /// lets the reachability walk follow pointers that live inside boxed closures
+    static CAPS: RefCell<Vec<(u32, u32, u32, usize)>> = const { RefCell::new(Vec::new()) };
+    /// ids of node values that exist (created and not yet dropped)
+    static LIVE: RefCell<std::collections::BTreeSet<u32>> = const { RefCell::new(std::collections::BTreeSet::new()) };
     static WORLD: Cell<*mut ()> = const { Cell::new(std::ptr::null_mut()) };
     static CTX: RefCell<Vec<Ctx>> = const { RefCell::new(Vec::new()) };
 }
@@ -70,6 +77,8 @@ pub fn install<P: Pad>(w: Box<World<P>>) {
 
 /// Leaks the world (handles are never dropped at the end of a run).
 pub fn uninstall() {
+    CAPS.with(|c| c.borrow_mut().clear());
+    LIVE.with(|c| c.borrow_mut().clear());
     WORLD.with(|c| c.set(std::ptr::null_mut()));
     CTX.with(|c| c.borrow_mut().clear());
 }
@@ -80,6 +89,26 @@ pub fn with_world<P: Pad, R>(f: impl FnOnce(&mut World<P>) -> R) -> R {
     let p = WORLD.with(|c| c.get()) as *mut World<P>;
     assert!(!p.is_null(), "no world installed");
     unsafe { f(&mut *p) }
+}
+
+pub fn live_add(id: u32) {
+    LIVE.with(|c| c.borrow_mut().insert(id));
+}
+pub fn live_remove(id: u32) {
+    LIVE.with(|c| c.borrow_mut().remove(&id));
+}
+fn is_live(id: u32) -> bool {
+    LIVE.with(|c| c.borrow().contains(&id))
+}
+
+pub fn caps_add(owner: u32, action: u32, target: u32, addr: usize) {
+    CAPS.with(|c| c.borrow_mut().push((owner, action, target, addr)));
+}
+pub fn caps_remove(owner: u32, action: u32) {
+    CAPS.with(|c| c.borrow_mut().retain(|x| !(x.0 == owner && x.1 == action)));
+}
+fn caps_of(owner: u32) -> Vec<(u32, usize)> {
+    CAPS.with(|c| c.borrow().iter().filter(|x| x.0 == owner).map(|x| (x.2, x.3)).collect())
 }
 
 pub fn push_ctx(id: u32, ptr: *const (), kind: CbKind) {
@@ -179,6 +208,9 @@ fn walk_node<P: Pad>(n: &Node<P>, expect: u32, seen: &mut BTreeMap<u32, bool>) {
                 next.push((s.target, &**cc as *const Node<P>));
             }
         }
+    }
+    for (t, addr) in caps_of(expect) {
+        next.push((t, addr as *const Node<P>));
     }
     for (t, p) in next {
         walk_node(unsafe { &*p }, t, seen);
@@ -391,9 +423,14 @@ pub fn valid<P: Pad>(call: &Value) -> bool {
             s.get(i.wrapping_sub(1)).map(|s| s.inner.is_some())
         };
         match op {
-            "new" | "collect" | "setcfg" => true,
+            "collect" | "setcfg" => true,
+            "new" => !is_live(o),
             #[cfg(feature = "weak")]
-            "newcyc" => true,
+            "newcyc" => !is_live(o),
+            #[cfg(feature = "clean")]
+            "register" => node_ok(a) && (g_u32(call, "t") == 0 || has_root(g_u32(call, "t"))) && !w.cleanables.contains_key(&g_u32(call, "c")),
+            #[cfg(feature = "clean")]
+            "clean" | "dropcl" => w.cleanables.contains_key(&g_u32(call, "c")),
             #[cfg(feature = "weak")]
             "savew" | "wprobe" => !PROVIDED.with(|c| c.get()).is_null() && ctx_ptr_kind(o) == Some(CbKind::Closure),
             "clone" | "drop" | "mark" | "unwrap" | "fagain" | "downgrade" | "clonen" => has_root(o),
@@ -739,6 +776,50 @@ pub fn exec<P: Pad>(call: &Value) {
                 }
             })
         }),
+        #[cfg(feature = "clean")]
+        "register" => {
+            let c = g_u32(call, "c");
+            let t = g_u32(call, "t");
+            let mapid = 100 + a;
+            let prev = CUR_NEW.with(|x| x.replace(mapid));
+            let _r = Restore(&CUR_NEW, prev);
+            let prevm = CUR_META.with(|x| x.replace(mapid));
+            let _rm = Restore(&CUR_META, prevm);
+            // the captured pointer is moved out of the program's handles into the closure
+            let cap = with_world::<P, _>(|w| crate::node::CapSlot::<P> { owner: a, action: c, target: t, inner: if t != 0 { w.roots.get_mut(&t).unwrap().pop() } else { None } });
+            if let Some(cc) = &cap.inner {
+                caps_add(a, c, t, &**cc as *const Node<P> as usize);
+            }
+            run_op::<P>(call, move || {
+                let np = with_world::<P, _>(|w| unsafe { node_ref(w, a) }.unwrap() as *const Node<P>);
+                let n = unsafe { &*np };
+                n.cleaner.registered.set(true);
+                let cl = n.cleaner.inner.register(move || crate::node::action_body::<P>(c, cap));
+                with_world::<P, _>(|w| {
+                    w.cleanables.insert(c, Box::new(cl));
+                });
+                json!({})
+            });
+        }
+        #[cfg(feature = "clean")]
+        "clean" => {
+            let c = g_u32(call, "c");
+            // the handle stays where it is (an action may call clean() on it again)
+            let p = with_world::<P, _>(|w| &**w.cleanables.get(&c).unwrap() as *const cleaners::Cleanable);
+            run_op::<P>(call, move || {
+                unsafe { (*p).clean() };
+                json!({})
+            });
+        }
+        #[cfg(feature = "clean")]
+        "dropcl" => {
+            let c = g_u32(call, "c");
+            let cl = with_world::<P, _>(|w| w.cleanables.remove(&c).unwrap());
+            run_op::<P>(call, move || {
+                drop(cl);
+                json!({})
+            });
+        }
         #[cfg(feature = "auto")]
         "setcfg" => run_op::<P>(call, || {
             let auto = call.get("auto").and_then(|v| v.as_bool()).unwrap_or(false);
